@@ -45,6 +45,14 @@ pub mod io {
         fn poll_write(self: Pin<&mut Self>, cx: &mut Context<'_>, buf: &[u8]) -> Poll<io::Result<usize>>;
         fn poll_flush(self: Pin<&mut Self>, cx: &mut Context<'_>) -> Poll<io::Result<()>>;
         fn poll_shutdown(self: Pin<&mut Self>, cx: &mut Context<'_>) -> Poll<io::Result<()>>;
+        /// tokio's default: the first non-empty buffer goes through `poll_write`
+        fn poll_write_vectored(self: Pin<&mut Self>, cx: &mut Context<'_>, bufs: &[io::IoSlice<'_>]) -> Poll<io::Result<usize>> {
+            let buf = bufs.iter().find(|b| !b.is_empty()).map_or(&[][..], |b| &**b);
+            self.poll_write(cx, buf)
+        }
+        fn is_write_vectored(&self) -> bool {
+            false
+        }
     }
 
     impl<T: ?Sized + AsyncRead + Unpin> AsyncRead for &mut T {
@@ -61,6 +69,12 @@ pub mod io {
         }
         fn poll_shutdown(mut self: Pin<&mut Self>, cx: &mut Context<'_>) -> Poll<io::Result<()>> {
             Pin::new(&mut **self).poll_shutdown(cx)
+        }
+        fn poll_write_vectored(mut self: Pin<&mut Self>, cx: &mut Context<'_>, bufs: &[io::IoSlice<'_>]) -> Poll<io::Result<usize>> {
+            Pin::new(&mut **self).poll_write_vectored(cx, bufs)
+        }
+        fn is_write_vectored(&self) -> bool {
+            (**self).is_write_vectored()
         }
     }
 
@@ -200,7 +214,25 @@ pub mod io {
         }
     }
 
+    pub struct WriteVectored<'a, 'b, W: ?Sized> {
+        w: &'a mut W,
+        bufs: &'a [io::IoSlice<'b>],
+    }
+    impl<W: AsyncWrite + Unpin + ?Sized> Future for WriteVectored<'_, '_, W> {
+        type Output = io::Result<usize>;
+        fn poll(self: Pin<&mut Self>, cx: &mut Context<'_>) -> Poll<Self::Output> {
+            let me = self.get_mut();
+            Pin::new(&mut *me.w).poll_write_vectored(cx, me.bufs)
+        }
+    }
+
     pub trait AsyncWriteExt: AsyncWrite {
+        fn write_vectored<'a, 'b>(&'a mut self, bufs: &'a [io::IoSlice<'b>]) -> WriteVectored<'a, 'b, Self>
+        where
+            Self: Unpin,
+        {
+            WriteVectored { w: self, bufs }
+        }
         fn write<'a>(&'a mut self, src: &'a [u8]) -> Write<'a, Self>
         where
             Self: Unpin,
@@ -334,10 +366,26 @@ pub mod net {
         fn poll_shutdown(self: Pin<&mut Self>, _cx: &mut Context<'_>) -> Poll<io::Result<()>> {
             Poll::Ready(Ok(()))
         }
+        /// a TCP stream gathers (`writev`): the bytes of all buffers are offered to the transport as one write, which may
+        /// stop anywhere (short write, window) — inside the first buffer, at a buffer boundary or inside a later one
+        fn poll_write_vectored(self: Pin<&mut Self>, cx: &mut Context<'_>, bufs: &[io::IoSlice<'_>]) -> Poll<io::Result<usize>> {
+            let mut all = Vec::with_capacity(bufs.iter().map(|b| b.len()).sum());
+            for b in bufs {
+                all.extend_from_slice(b);
+            }
+            self.get_mut().ep.poll_write(cx, &all)
+        }
+        fn is_write_vectored(&self) -> bool {
+            true
+        }
     }
 }
 
 pub mod time {
+    pub use super::time_extras::{timeout, Timeout};
+    pub mod error {
+        pub use super::super::time_extras::Elapsed;
+    }
     pub use std::time::Duration;
     use std::future::Future;
     use std::pin::Pin;
@@ -353,6 +401,46 @@ pub mod time {
         fn poll(self: Pin<&mut Self>, cx: &mut Context<'_>) -> Poll<()> {
             // Sleep is Unpin here (simcore::Sleep holds an id only)
             Pin::new(&mut self.get_mut().0).poll(cx)
+        }
+    }
+}
+
+pub mod time_extras {
+    //! `tokio::time::timeout` over the simulated clock (not used by ohkami itself — it has `util::timeout_in` — but a
+    //! change to ohkami may reach for it, and must then meet simulated time too)
+    use super::time::{sleep, Sleep};
+    use std::future::Future;
+    use std::pin::Pin;
+    use std::task::{Context, Poll};
+    use std::time::Duration;
+
+    #[derive(Debug, PartialEq, Eq)]
+    pub struct Elapsed(());
+    impl std::fmt::Display for Elapsed {
+        fn fmt(&self, f: &mut std::fmt::Formatter<'_>) -> std::fmt::Result {
+            f.write_str("deadline has elapsed")
+        }
+    }
+    impl std::error::Error for Elapsed {}
+
+    pub struct Timeout<F> {
+        fut: Pin<Box<F>>,
+        sleep: Sleep,
+    }
+    pub fn timeout<F: Future>(d: Duration, fut: F) -> Timeout<F> {
+        Timeout { fut: Box::pin(fut), sleep: sleep(d) }
+    }
+    impl<F: Future> Future for Timeout<F> {
+        type Output = Result<F::Output, Elapsed>;
+        fn poll(self: Pin<&mut Self>, cx: &mut Context<'_>) -> Poll<Self::Output> {
+            let me = unsafe { self.get_unchecked_mut() };
+            if let Poll::Ready(v) = me.fut.as_mut().poll(cx) {
+                return Poll::Ready(Ok(v));
+            }
+            match Pin::new(&mut me.sleep).poll(cx) {
+                Poll::Ready(()) => Poll::Ready(Err(Elapsed(()))),
+                Poll::Pending => Poll::Pending,
+            }
         }
     }
 }
